@@ -307,6 +307,8 @@ class SimplicialComplex(Hypergraph):
             members = frozenset(members)
         except TypeError:
             raise XGIError("The simplex cannot be cast to a frozenset.")
+        if None in members:
+            raise XGIError("None cannot be a node")
 
         if self.has_simplex(members):
             return
@@ -484,6 +486,9 @@ class SimplicialComplex(Hypergraph):
                 except TypeError as e:
                     raise XGIError("Invalid ebunch format") from e
 
+                if None in members:
+                    raise XGIError("None cannot be a node")
+
                 # check that it does not exist yet (based on members, not ID)
                 if not members or self.has_simplex(members):
                     continue
@@ -572,6 +577,9 @@ class SimplicialComplex(Hypergraph):
                     members = list(members)
             except TypeError as e:
                 raise XGIError("Invalid ebunch format") from e
+
+            if None in members:
+                raise XGIError("None cannot be a node")
 
             # check that it does not exist yet (based on members, not ID)
             if not members or self.has_simplex(members):
